@@ -33,7 +33,9 @@ int rcmd_connect(struct rcmd_info *rcmd, char *host, char *addr, char *locuser, 
 int rcmd_destroy(struct rcmd_info *r) { RELAY_STUB_ABORT("rcmd_destroy"); return 0; }
 int rcmd_init(opt_t *opt) { RELAY_STUB_ABORT("rcmd_init"); return -1; }
 int rcmd_signal(struct rcmd_info *r, int signum) { RELAY_STUB_ABORT("rcmd_signal"); return -1; }
+#ifndef RELAY_REAL_XPOLL     /* relay_harness.c links the real src/common/xpoll.c (op `xp`) */
 int xpoll(struct xpollfd *xfds, int nfds, int timeout) { RELAY_STUB_ABORT("xpoll"); return -1; }
+#endif
 
 struct rcmd_info *rcmd_create(char *host)
 {
